@@ -260,8 +260,7 @@ void h_dnf_term_cancel(void)
 	TRACE_ARR(v, DN_ATOMS + 1); TRACE_ARR(xlen, 1); TRACE_ARR(xlit, DN_ATOMS); TRACE_ARR(ylen, 1); TRACE_ARR(ylit, DN_ATOMS);
 	DNF X = dn_arbitrary(1, xlen, xlit), Y = dn_arbitrary(1, ylen, ylit);
 	int xv = dn_term_eval(X->argv[0]), yv = dn_term_eval(Y->argv[0]);
-	/* precondition from the only call site (dnfOrMerge): y is a single-literal term */
-	if (Y->argv[0]->argc == 1 && dnfAndImpliesNegation(X->argv[0], Y->argv[0])) {
+	if (dnfAndImpliesNegation(X->argv[0], Y->argv[0])) {
 		DNF_And r = dnfAndCancelNegation(X->argv[0], Y->argv[0]);
 		CHECK("dnfAndCancelNegation: no write past the allocated term", dn_guards_intact());
 		CHECK("dnfAndCancelNegation: result well formed", dn_term_wf(r));
